@@ -324,6 +324,7 @@ fn multi_bit(s: &Session, full: bool) -> Result<u64, (String, serde_json::Value,
 
 pub fn run(tier: Tier, seed: u64) -> i32 {
     let report = Report::new("C02", tier, seed, "model_checking");
+    unusual_first_use();
     let specs: Vec<(&str, &str)> = if tier == Tier::Thorough {
         creds(true)
     } else {
@@ -443,7 +444,20 @@ pub fn run(tier: Tier, seed: u64) -> i32 {
                         }
                     }
                 }
-                v.retain(|x| !x.is_empty() && x.len() <= 16);
+                // a character replaced by a non-ASCII one whose code point ends in the same byte (U+01xx, U+20xx): a check
+                // made after narrowing the character to a byte lets it through as the ASCII character
+                for (i, ch) in s.char_indices() {
+                    for hi in [0x0100u32, 0x2000, 0x1_0000] {
+                        if let Some(c2) = char::from_u32(hi + ch as u32) {
+                            let mut t = String::new();
+                            t.push_str(&s[..i]);
+                            t.push(c2);
+                            t.push_str(&s[i + ch.len_utf8()..]);
+                            v.push(t);
+                        }
+                    }
+                }
+                v.retain(|x| !x.is_empty() && x.chars().count() <= 16);
                 v.sort();
                 v.dedup();
                 v
@@ -457,7 +471,26 @@ pub fn run(tier: Tier, seed: u64) -> i32 {
                 typed.push((ru.to_string(), tp));
             }
             for (ti, (tu, tp)) in typed.iter().enumerate() {
-                let same = refmodel::misc::normalize(tu).unwrap() == run_ && refmodel::misc::normalize(tp).unwrap() == rpn;
+                let (ntu, ntp) = (refmodel::misc::normalize(tu), refmodel::misc::normalize(tp));
+                if ntu.is_err() || ntp.is_err() {
+                    // not a permitted credential at all: no constructor may turn it into one that logs in
+                    use wow_srp::normalized_string::NormalizedString as NS;
+                    let built: Vec<(NS, NS)> = [
+                        (NS::new(tu.as_str()).ok(), NS::new(tp.as_str()).ok()),
+                        (NS::from_string(tu.clone()).ok(), NS::from_string(tp.clone()).ok()),
+                    ]
+                    .into_iter()
+                    .filter_map(|(a, b)| Some((a?, b?)))
+                    .collect();
+                    for (a, b) in built {
+                        if a.as_ref().as_bytes() == &run_[..] && b.as_ref().as_bytes() == &rpn[..] {
+                            report.violation(Violation { signature: "C02|server-accepts-confusable-credentials".into(), scenario: "confusable-credentials".into(), replay: json!({"registered": [ru, rp], "typed": [tu, tp]}), detail: json!({"message": format!("the typed pair {tu:?} / {tp:?} is not a permitted credential, yet the library turns it into the registered pair {ru:?} / {rp:?}: a client typing it is logged in")}) });
+                        }
+                    }
+                    n_conf += 1;
+                    continue;
+                }
+                let same = ntu.unwrap() == run_ && ntp.unwrap() == rpn;
                 let li = LoginInput {
                     reg_user: ru,
                     reg_pass: rp,
